@@ -84,6 +84,8 @@ def raw_missing(st, e):
 def raw_refuted(facts, e):
     if any(f[0] == "nottype" and f[1] == e for f in facts) or ("nothas", e, C("signature")) in facts:
         return True
+    if any(f[0] == "has" and f[1] == e and f[2] != C("signature") and f[2][0] == "const" for f in facts):
+        return True  # an entry besides 'signature': the raw shape has exactly that one
     if hex_refuted(facts, Sub(e, C("signature")), 128):
         return True
     return any(f[0] == "ne" and f[1] == CallT("builtin:len", [e]) and f[2] == C(1) for f in facts)
